@@ -59,10 +59,15 @@ func (c tcase) String() string {
 }
 
 func orderName(o int) string {
-	if o == 0 {
+	switch {
+	case o == 0:
 		return "links-then-subscribe"
+	case o == 1:
+		return "subscribe-then-links"
+	case o%2 == 0:
+		return fmt.Sprintf("other-links,settle,then-subscribe+link#%d-in-one-pass", (o-2)/2)
 	}
-	return "subscribe-then-links"
+	return fmt.Sprintf("other-links,settle,then-link#%d+subscribe-in-one-pass", (o-2)/2)
 }
 
 func pairs(n int) [][2]int {
@@ -153,6 +158,9 @@ func reach(n int, mask, subs uint, p int) uint {
 	return r
 }
 
+// splitMaxN bounds the graphs on which split establishment orders are enumerated.
+var splitMaxN = 3
+
 func allCases(maxN int) []tcase {
 	var cs []tcase
 	for n := 2; n <= maxN; n++ {
@@ -166,6 +174,14 @@ func allCases(maxN int) []tcase {
 					for npub := 1; npub <= 2; npub++ {
 						for o := 0; o < 2; o++ {
 							cs = append(cs, tcase{N: n, Edges: em, Subs: sm, Pub: p, NPub: npub, Order: o})
+						}
+						// split orders (one message, graphs with at least two links)
+						if npub == 1 && n <= splitMaxN && popcount(em) >= 2 {
+							for k := 0; k < np; k++ {
+								if em&(1<<uint(k)) != 0 {
+									cs = append(cs, tcase{N: n, Edges: em, Subs: sm, Pub: p, NPub: 1, Order: 2 + 2*k}, tcase{N: n, Edges: em, Subs: sm, Pub: p, NPub: 1, Order: 3 + 2*k})
+								}
+							}
 						}
 					}
 				}
@@ -334,7 +350,25 @@ func runInBubble(c tcase, res *result) {
 		}
 	}
 	synctest.Wait()
-	if c.Order == 0 {
+	if c.Order >= 2 {
+		// split order: the subscription and one last link land in the same pass
+		// of the router's evaluation loop, after the other links settled
+		k := (c.Order - 2) / 2
+		for e := range pairs(c.N) {
+			if c.Edges&(1<<uint(e)) != 0 && e != k {
+				wire(e)
+			}
+		}
+		settle()
+		if c.Order%2 == 0 {
+			subscribe()
+			wire(k)
+		} else {
+			wire(k)
+			subscribe()
+		}
+		settle()
+	} else if c.Order == 0 {
 		link()
 		settle()
 		subscribe()
@@ -530,6 +564,9 @@ func TestC28(t *testing.T) {
 	}
 	if s := os.Getenv("C28_MAXN"); s != "" {
 		fmt.Sscan(s, &maxN)
+	}
+	if os.Getenv("VERIF_TIER") == "thorough" {
+		splitMaxN = 4
 	}
 	cs := allCases(maxN)
 	if sh := os.Getenv("C28_SHARD_OUT"); sh != "" {
@@ -825,7 +862,7 @@ func TestC28(t *testing.T) {
 	run.Cov["worker_processes"] = workers
 	run.Cov["cases_with_subscriber_not_reachable_through_subscribed_peers"] = literalCases
 	run.Cov["subscribers_not_reachable_through_subscribed_peers"] = literalPairs
-	run.Cov["bound"] = fmt.Sprintf("all connected labelled graphs on 2..%d nodes, all subscriber subsets, all publishers, 1-2 messages, 2 establishment orders; stream re-establishment on graphs of 2..%d nodes", maxN, reMaxN)
+	run.Cov["bound"] = fmt.Sprintf("all connected labelled graphs on 2..%d nodes, all subscriber subsets, all publishers, 1-2 messages, 2 establishment orders plus split orders (subscription and last link in one evaluation pass); stream re-establishment on graphs of 2..%d nodes", maxN, reMaxN)
 	run.Assumptions = append(run.Assumptions,
 		"'reachable' is read as reachable from the publisher along peers that are themselves subscribed (floodsub relays only inside the channel's mesh: non-subscribed nodes drop and are not sent the channel's messages); subscribers of a connected mesh that are only reachable through non-subscribed nodes are counted in cases_with_subscriber_not_reachable_through_subscribed_peers and must NOT be delivered to under this model",
 		"each case runs single-threaded (GOMAXPROCS=1, asynchronous preemption off, garbage collection only between cases) to quiescence in virtual time: goroutines switch only at blocking operations, event orders inside one settling are the Go scheduler's; interleavings that need a preemption between two non-blocking steps - in particular the Get-then-Set de-duplication race between two read pumps - are outside this check (covered by the controlled-scheduler part of C28)",
